@@ -22,7 +22,7 @@ PROPS = {"C13": dict(
         "mutable upload onto an immutable object may fail (inode flag set: root on ext4) or replace it (flag unsupported); both accepted",
     ],
     technique="model-based state machine + exhaustive crash-prefix enumeration over a traced system-call sequence + bounded reader/writer stress",
-    budget={"quick": 600, "thorough": 2400},
+    budget={"quick": 900, "thorough": 3600},
     units=[
         rapid("ctlog", "internal/ctlog", "^TestVerifC13Model$", 300, 1000),
         rapid("ctlog", "internal/ctlog", "^TestVerifC13Crash$", 40, 40),
